@@ -72,3 +72,28 @@ Theorem C05_written_rev_prefix : forall compress decompress c,
   collect (rev_prefix_next (cstep (load_block decompress (vs_bytes s) (m_codec m)) (m_root m) (m_levels m)) p) fuel iter_new = Done (rev (prefix_spec es p)).
 Proof. exact written_prefix_bwd. Qed.
 Print Assumptions C05_written_rev_prefix.
+
+(* ================= call by call ================= *)
+(* The same for every single call of next: the first n calls (n up to the number of entries sharing the
+   prefix) return Some of the first n of them, one after the other; the call after the last returns None. *)
+From Grenad.proofs Require Import IterFault IterCalls.
+
+Theorem C05_prefix_call_by_call : forall ld root levels bstore, wf_store ld root levels bstore ->
+  forall p,
+  (forall n, (n <= length (prefix_spec (content root levels bstore) p))%nat ->
+     exists it', calls (prefix_next (cstep ld root levels) p) n iter_new
+                 = Done (it', map Some (firstn n (prefix_spec (content root levels bstore) p)))) /\
+  (exists it', calls (prefix_next (cstep ld root levels) p) (S (length (prefix_spec (content root levels bstore) p))) iter_new
+               = Done (it', map Some (prefix_spec (content root levels bstore) p) ++ [None])).
+Proof. exact prefix_calls. Qed.
+Print Assumptions C05_prefix_call_by_call.
+
+Theorem C05_rev_prefix_call_by_call : forall ld root levels bstore, wf_store ld root levels bstore ->
+  forall p, Forall (fun e => wf_bytes (fst e)) (content root levels bstore) -> wf_bytes p ->
+  (forall n, (n <= length (rev (prefix_spec (content root levels bstore) p)))%nat ->
+     exists it', calls (rev_prefix_next (cstep ld root levels) p) n iter_new
+                 = Done (it', map Some (firstn n (rev (prefix_spec (content root levels bstore) p))))) /\
+  (exists it', calls (rev_prefix_next (cstep ld root levels) p) (S (length (rev (prefix_spec (content root levels bstore) p)))) iter_new
+               = Done (it', map Some (rev (prefix_spec (content root levels bstore) p)) ++ [None])).
+Proof. exact rev_prefix_calls. Qed.
+Print Assumptions C05_rev_prefix_call_by_call.
